@@ -123,6 +123,15 @@ CLAIMED = {
         note=TB + "The reference is Vim's address rules (validated against /usr/bin/vim each run), not sed's: out-of-range ranges address nothing, backwards ranges are swapped. Where the cursor is after an ex command, the regex crate beyond the modelled fragment, and :normal! keys other than x dd A.. I.. are outside the model (partial).",
         technique="Coq proof (list-surgery lemmas over the line list, leftmost-match lemma for the matcher) + CLI-vs-reference correspondence, reference cross-checked against Vim",
         design="§9 C16"),
+    "C17": dict(
+        text="Theorems (reference interpreter, all programs, states and fuels): a block is a scope - after a block, however it is left (end, break, continue, return), the variable stack has exactly the frames and names it had before; a name not visible before a block is not visible after it; output only grows; "
+             "the result of a run is independent of the fuel of the definition (a run that ends within its fuel gives the same result with any larger fuel) - proved by one mutual induction over the seven functions of the interpreter. "
+             "Correspondence: programs generated from the expressible core grammar (let/assign/compound assign, left-to-right arithmetic with parentheses and negative literals, comparisons, && ||, if/elif/else, while/until, for over ranges/arrays/literals/strings, "
+             "push/pop/index/index-assign, functions with 0..3 parameters (also named like globals) and return from nested ifs, break/continue from nested ifs, shadowing, interpolation, echo; with and without an input buffer feeding $line $col $lines $char $word) "
+             "are run through the CLI and through the reference evaluated in coqc; stdout must be byte-identical; every program ends by echoing all top-level variables; a hand-written corpus (recursion, shadowing, early return, break/continue, arithmetic order, arrays/strings) runs first.",
+        note=TB + "The pest grammar and Expr::from_rule are not modelled: the generator writes source text and AST side by side (partial). Only the core named by the property: no regex values, ternaries, registers, buffers, aliases, includes. Functions use dynamic scope in model and implementation alike; generated bodies only use parameters and top-level variables.",
+        technique="Coq proof (mutual fuel induction: scope/output invariant, fuel monotonicity) + CLI-vs-reference-interpreter correspondence",
+        design="§9 C17"),
     "C10": dict(
         text="Theorems (all inputs of the modelled components): Opts::parse/handle_global_arg end with an option set or the usage error for every argument vector, scope stack and file-system answer, never a panic (structural recursion: it ends); every key the key reader returns costs at least one byte, so the key loop ends within one iteration per byte and the model's fuel is never what stops it; output formatting ends with text or the error exit; "
              "the five drivers and main's dispatch add no panic to units that end gracefully; undo/redo have no failing outcome. "
